@@ -17,7 +17,10 @@ MC = ("224.224.224.245", 30490)
 
 def addr_of(n):
     """Opaque address numbers of the model -> socket addresses: 1..99 hosts 10.0.0.n port 30490; 100..199 the SAME host as
-    n-100 on another port (two peers on one machine); 200.. IPv6 hosts."""
+    n-100 on another port (two peers on one machine); 200..299 IPv6 hosts; 300.. ONE link-local IPv6 address and port on
+    different links (scope id n-300): different peers whose sockaddrs agree in host and port."""
+    if n >= 300:
+        return ("fe80::1", 30490, 0, n - 300)
     if n >= 200:
         return (f"2001:db8::{n:x}", 30490, 0, 0)
     if n >= 100:
@@ -28,6 +31,8 @@ def addr_of(n):
 def addr_id(t):
     ip = ipaddress.ip_address(t[0])
     if ip.version == 6:
+        if ip.is_link_local:
+            return 300 + t[3]
         return int(ip) & 0xFFFF
     return (int(ip) & 0xFF) + (100 if t[1] == 30491 else 0)
 
